@@ -38,6 +38,11 @@ SCANS = {
     "alpha": str.isalpha,
     "ascii": str.isascii,
     "word": lambda c: c.isalnum() or c == "_",
+    # str.islower() / isupper() of a one-character string: a cased character of that case
+    "lower1": str.islower,
+    "upper1": str.isupper,
+    # cased (has a lower or upper variant in the sense of str.islower/isupper/istitle)
+    "cased": lambda c: c.islower() or c.isupper() or c.istitle(),
 }
 
 
@@ -361,6 +366,19 @@ def L_allchars(scan, nonempty):
     return cat(a, star(a)) if nonempty else star(a)
 
 
+def L_islower():
+    """str.islower(): no cased character that is not lower case, and at least one lower-case one"""
+    low = sym(("scan", "lower1"))
+    other = sym(("or", ("scan", "lower1"), ("not", ("scan", "cased"))))
+    return cat(star(other), low, star(other))
+
+
+def L_isupper():
+    up = sym(("scan", "upper1"))
+    other = sym(("or", ("scan", "upper1"), ("not", ("scan", "cased"))))
+    return cat(star(other), up, star(other))
+
+
 def L_lower_fixed():
     return star(sym(("scan", "lowstable")))
 
@@ -580,6 +598,8 @@ def validate_atoms(maxlen=3):
         ("s.isalnum()", L_isalnum(), str.isalnum),
         ("s.lower() == s", L_lower_fixed(), lambda s: s.lower() == s),
         ("s.upper() == s", L_upper_fixed(), lambda s: s.upper() == s),
+        ("s.islower()", L_islower(), str.islower),
+        ("s.isupper()", L_isupper(), str.isupper),
         ("s.isdigit()", L_allchars("digit", True), str.isdigit),
         ("s.isdecimal()", L_allchars("decimal", True), str.isdecimal),
         ("s.isascii()", L_allchars("ascii", False), str.isascii),
